@@ -4,8 +4,10 @@ import NanoVerif.Model.Reduce
 
   `reduce sum <samples> <W> <D> <K> {<worker> <v_1 … v_D>}×K`   the K chunk contributions (flattened `m_vm1, m_gb1, m_gW1`) in the
       order in which they were processed, each with the worker that processed it → `ok D r_1 … r_D`
-  `reduce min <W> <K> {<worker> <score> <feature>}×K`            the K candidates in processing order → `ok <score> <feature>`
+  `reduce min <W> <K> {<worker> <score> <feature>}×K`            the K candidates in processing order, per-worker "first best"
+      caches then `min_reduce_feature` (score, then smallest feature index) → `ok <score> <feature>`
       (`7fefffffffffffff -1` when no candidate was stored)
+  `reduce minlex <W> <K> {<worker> <score> <feature>}×K`         the same with the lexicographic caches of the table learners
 -/
 namespace NanoVerif.Driver.Reduce
 open NanoVerif.Proto NanoVerif.Reduce
@@ -22,11 +24,11 @@ def pSumItem (d : Nat) : P (Nat × List Float) := fun ts => do
   let (v, ts) ← pMany pFloat d ts
   pure ((w, v), ts)
 
-def pMinItem : P (Nat × Cand Float Int) := fun ts => do
+def pMinItem : P (Nat × Cand Float Unit) := fun ts => do
   let (w, ts) ← pNat ts
   let (s, ts) ← pFloat ts
   let (f, ts) ← pInt ts
-  pure ((w, ⟨s, f⟩), ts)
+  pure ((w, ⟨s, f, ()⟩), ts)
 
 /-- `std::numeric_limits<double>::max()` -/
 def dblMax : Float := Float.ofBits 0x7fefffffffffffff
@@ -53,7 +55,18 @@ def handle : Toks → Option String
     let items := items.filter (fun (_, c) => c.score.isFinite && c.score < dblMax)
     let r ← mapMinReduce (schedule workers items)
     match r with
-    | some c => pure s!"ok {hexOfFloat c.score} {c.payload}"
+    | some c => pure s!"ok {hexOfFloat c.score} {c.feature}"
+    | none => pure s!"ok {hexOfFloat dblMax} -1"
+  | "minlex" :: ts => do
+    let (workers, ts) ← pNat ts
+    let (k, ts) ← pNat ts
+    let (items, ts) ← pMany pMinItem k ts
+    guard ts.isEmpty
+    guard (items.all (fun (w, _) => w < workers))
+    let items := items.filter (fun (_, c) => c.score.isFinite && c.score < dblMax)
+    let r ← mapMinReduceLex (schedule workers items)
+    match r with
+    | some c => pure s!"ok {hexOfFloat c.score} {c.feature}"
     | none => pure s!"ok {hexOfFloat dblMax} -1"
   | _ => none
 
